@@ -2,7 +2,8 @@
 Model of format/detect.go (Detect, DetectFromMagic, detectHTMLMagic,
 DetectFromReader, detectZIPFormat) and of the admission rule of extractor.go
 (validateFormat, ensureReader), as the code is after the fix
-"detect OOXML packages by main part, not by archive order".
+"detect OOXML packages by main part, not by archive order" and the fix
+"HTML sniffing accepts any HTML whitespace after <!DOCTYPE and leading form feeds".
 
 Core Lean only.  Strings are `Str` = byte values as `Nat`.  External calls are
 parameters: `archive/zip` hands the model the member list in archive order
@@ -69,6 +70,10 @@ def sPdfMagic : Str := [37, 80, 68, 70]
 def sZipMagic : Str := [80, 75, 3, 4]
 /-- `"<!DOCTYPE HTML"` -/
 def sDoctypeHtml : Str := [60, 33, 68, 79, 67, 84, 89, 80, 69, 32, 72, 84, 77, 76]
+/-- `"<!DOCTYPE"` -/
+def sDoctype : Str := [60, 33, 68, 79, 67, 84, 89, 80, 69]
+/-- `"HTML"` -/
+def sHtmlName : Str := [72, 84, 77, 76]
 /-- `"<HTML"` -/
 def sHtmlTag : Str := [60, 72, 84, 77, 76]
 /-- `"<?XML"` -/
@@ -122,8 +127,17 @@ def detect (name : Str) : Format := extTable (lower (ext name))
 
 /-! ### magic bytes -/
 
-/-- the white space `detectHTMLMagic` skips: space, tab, LF, CR -/
-def isMagicWS (c : Nat) : Bool := c == 32 || c == 9 || c == 10 || c == 13
+/-- `format.isHTMLSpace`: the white space `detectHTMLMagic` skips (HTML's ASCII
+white space): space, tab, LF, FF, CR -/
+def isMagicWS (c : Nat) : Bool := c == 32 || c == 9 || c == 10 || c == 12 || c == 13
+
+/-- `format.isHTMLDoctype` (on the upper-cased text): `<!DOCTYPE`, one or more
+white-space characters, `HTML` -/
+def isHTMLDoctype (u : Str) : Bool :=
+  sDoctype.isPrefixOf u &&
+    (let r := u.drop sDoctype.length
+     let r' := r.dropWhile isMagicWS
+     decide (r'.length < r.length) && sHtmlName.isPrefixOf r')
 
 /-- `format.detectHTMLMagic` -/
 def detectHTMLMagic (data : Str) : Bool :=
@@ -131,7 +145,7 @@ def detectHTMLMagic (data : Str) : Bool :=
   if d.isEmpty then false
   else
     let u := upper d
-    if sDoctypeHtml.isPrefixOf u then true
+    if isHTMLDoctype u then true
     else if sHtmlTag.isPrefixOf u then true
     else if sXmlDecl.isPrefixOf u && hasSub sHtmlTag (u.take 500) then true
     else false
